@@ -116,6 +116,28 @@ import collections.abc  # noqa: E402
 collections.abc.Sequence.register(_IntSeq)
 
 
+class _ArrayLike:
+    """A sized, iterable, sliceable container with the truth-value rules of a numeric array: ambiguous (ValueError) for
+    more than one element, the truth of the element for exactly one (taken to be 0 here), False when empty."""
+
+    def __init__(self, items):
+        self._items = list(items)
+
+    def __len__(self):
+        return len(self._items)
+
+    def __iter__(self):
+        return iter(self._items)
+
+    def __getitem__(self, i):
+        return _ArrayLike(self._items[i]) if isinstance(i, slice) else self._items[i]
+
+    def __bool__(self):
+        if len(self._items) > 1:
+            raise ValueError("The truth value of an array with more than one element is ambiguous")
+        return False
+
+
 def make_input(call, ci, sh):
     n = call["n"]
     size = call.get("result_size", 0)
@@ -138,7 +160,12 @@ def make_input(call, ci, sh):
                 out.append(None)
             out.append(x)
         items = out
+    if call.get("list_items"):
+        # the data items are lists themselves (token lists, rows): an item is never to be taken for a chunk
+        items = [list(x) if x is not None else None for x in items]
     form = call.get("form", "list")
+    if form == "array_like":
+        return _ArrayLike(items)
     if form == "list":
         return items
     if form == "tuple":
